@@ -284,7 +284,9 @@ class Verdict:
         self.violations.append((desc, case))
         return True
 
-    def finish(self, floor_eval=1, floor_nontrivial=2):
+    def finish(self, floor_eval=1, floor_nontrivial=2, floors=None):
+        """floors: {extra-key: minimum}; a run that observed less is inconclusive (exit 2),
+        but only when it found no violation."""
         wall = time.time() - self.t0
         for kid, kh in sorted(self.known_hits.items()):
             print("KNOWN-FINDING: property=%s %s [%s; matched %d case(s) this run]"
@@ -341,6 +343,10 @@ class Verdict:
                 print("  (+%d more violations not written out)"
                       % (len(self.violations) - len(replay_paths)))
             return 1
+        for k, mn in (floors or {}).items():
+            if self.extra.get(k, 0) < mn:
+                print("INCONCLUSIVE reason=monitor observed too little (%s=%s < %s)" % (k, self.extra.get(k, 0), mn))
+                return 2
         if self.evaluations < floor_eval or len(self.nontrivial) < floor_nontrivial:
             print("INCONCLUSIVE reason=too few events observed (evaluations=%d, nontrivial=%d)"
                   % (self.evaluations, len(self.nontrivial)))
